@@ -696,7 +696,11 @@ func judge(res *core.Result, sp *Spec, data []byte, chunks []int, eofWith bool, 
 		d2, err2 := parseGuard(func() (*sbom.Document, error) {
 			return rd.ParseStreamWithOptions(bytes.NewReader(sr.data), &reader.Options{Format: formats.Format(sp.F), UnserializeOptions: &native.UnserializeOptions{}})
 		})
-		if (err1 == nil) != (err2 == nil) || (err1 == nil && docHash(d1) != docHash(d2)) {
+		if sr.fired["err"] > 0 || sr.fired["seekfail"] > 0 {
+			// an injected fault that detection never reached (it lies behind the first JSON value, e.g. in
+			// the trailing newline) hit the parse instead: the parse may fail, nothing to compare
+			res.Probes["stream fault hit the parse after a clean detection"]++
+		} else if (err1 == nil) != (err2 == nil) || (err1 == nil && docHash(d1) != docHash(d2)) {
 			res.Violate("sniff:parse-differs:"+fm, fmt.Sprintf("parsing the stream after detection (err=%v) differs from parsing the same bytes with the format stated explicitly (err=%v)", err1, err2))
 		}
 	case sp.F != "" && streamFault:
